@@ -923,6 +923,12 @@ def build_jobs(res, r, thorough):
     src = c15_gen.decorate(r, base, force_inner=True)
     jobs.append((f"dir{k}:force-decorated", "directive-comments", src, {"check": k % 2 == 0}))
     k += 1
+  # boundary values on concrete abstract values (enumerated, c15_gen.edge_statements): all in thorough, a rotating
+  # third in quick (which third depends on the seed, so three seeds cover everything)
+  edge = c15_gen.edge_programs()
+  for i, (lab, src) in enumerate(edge):
+    if thorough or (i // 2) % 3 == res.seed % 3:
+      jobs.append((lab, "edge-constants", src, {"check": False}))
   kinds = collections.Counter()
   progs = []
   for i in range(n_prog):
